@@ -104,7 +104,7 @@ def probe_md_alone_vs_batch(inp: Dict[str, Any]) -> Dict[str, Any]:
     """trajectory of molecule k independent of its batch mates (real engine, few steps)"""
     sc_a = dict(engine=inp.get("engine", "basic"), stub=False, mols=[inp["names"][inp["target"]]], molid=[0],
                 cad=dict(data=1, coordinates=1, velocities=0, forces=1, xyz=0, print=0, ckpt=0), steps=inp.get("steps", 4), temp=0.0, seed=1, k=inp.get("k", 4),
-                charges=[esh.CHARGE.get(inp["names"][inp["target"]], 0)])
+                charges=[esh.CHARGE.get(inp["names"][inp["target"]], 0)], T_el=inp.get("T_el", 1500), dt=inp.get("dt", 0.5))
     sc_b = dict(sc_a, mols=list(inp["names"]), molid=[inp["target"]], charges=[esh.CHARGE.get(n, 0) for n in inp["names"]])
     mdh.DEFAULT_MOLS.update({k: (v[0], np.asarray(v[1]).tolist()) for k, v in esh.GEOMS.items() if k not in mdh.DEFAULT_MOLS})
     ra = mdh.in_process_run(sc_a, tag="c05a")[0]
@@ -117,7 +117,7 @@ def probe_md_alone_vs_batch(inp: Dict[str, Any]) -> Dict[str, Any]:
     for g in ("coordinates", "forces", "data"):
         va, vb = ra["h5"][g]["values"], rb["h5"][g]["values"]
         d = float(np.max(np.abs(va - vb)))
-        if d > 1e-8:
+        if d > inp.get("tol", 1e-8):
             bad.append(f"{g}: trajectory differs alone vs in batch by {d:.3e}")
     return {"ok": not bad, "observed": bad, "expected": "trajectory of molecule k independent of batch mates", "predicate": "MD alone == MD in batch",
             "fields": {"what": ["md"], "engine": sc_a["engine"]}}
@@ -161,6 +161,8 @@ def gen_cases(ctx: Ctx):
         cases.append(("same_element_swap", {"name": nm, "i": i, "j": j, "method": meth}))
     cases.append(("md_alone_vs_batch", {"names": ["h2", "h2o"], "target": 0, "engine": "basic", "steps": 3}))
     cases.append(("md_alone_vs_batch", {"names": ["ch4", "oh-"], "target": 1, "engine": "ksa", "steps": 3, "k": 4}))
+    # fractional occupations (high electronic temperature) on the padded member of a mixed batch: the response kernel must ignore padding orbitals
+    cases.append(("md_alone_vs_batch", {"names": ["ch2o", "h2o"], "target": 1, "engine": "ksa", "steps": 6, "k": 4, "T_el": 20000, "tol": 1e-9}))
     if ctx.thorough:
         cases.append(("md_alone_vs_batch", {"names": ["h2o", "h2", "co"], "target": 1, "engine": "xl", "steps": 4, "k": 5}))
     return cases
